@@ -67,7 +67,7 @@ DEFAULT_W = dict(add_dim=4, del_dim=2, add_attr=8, del_attr=5, rename=3, disable
 def gen_history(rng, w=None, nsteps=(8, 45), final_pairs=True, names_extra=('e', 'f'), multibyte=False, exotic=False):
     W = dict(DEFAULT_W); W.update(w or {})
     out = ['SETUP']; sim = Sim()
-    attr_pool = ATTR + (['é', '名'] if multibyte else []) + (['a b', '', ' x', 'a*', 'é'] if exotic else [])
+    attr_pool = ATTR + (['é', '名', 'aż'] if multibyte else []) + (['a b', '', ' x', 'a*', 'é', 'L' * 130, 'é' * 150] if exotic else [])     # 130 and 300 bytes: two-byte length prefixes
     # minimal states now and then: no dimension at all (only the broadcast right exists), a dimension without attribute
     for d in rng.sample(DIMS, rng.randint(1, 3) if rng.random() > 0.04 else 0):
         k = rng.choice(['AA', 'AH']); out.append(f'{k} {x(d)}'); sim.dims[d] = []; sim.kinds[d] = k
